@@ -18,7 +18,7 @@ Example t_subv_alias : same TFloat true w1 (VPopV Sub 0 0 2) = true. Proof. vm_c
 Example t_mulv_alias2 : same TInt true w1 (VPopV Mul 1 2 2) = true. Proof. vm_compute. reflexivity. Qed.
 Example t_muls : same TInt true w1 (VPmulS 0 1 (-3)) = true. Proof. vm_compute. reflexivity. Qed.
 Example t_divs : same TFloat true w1 (VPdivS 0 1 2) = true. Proof. vm_compute. reflexivity. Qed.
-Example t_divs0 : same TFloat true w1 (VPdivS 0 1 0) = false. Proof. vm_compute. reflexivity. Qed.
+Example t_divs0 : same TFloat true w1 (VPdivS 0 1 0) = true.  (* VDIVS calls VdivS since 5abb77d *) Proof. vm_compute. reflexivity. Qed.
 Example t_set : same TReal true w1 (VPset 0 2) = true. Proof. vm_compute. reflexivity. Qed.
 Example t_eq_diff : same TInt true w1 (VPequals 1 2 100) = false. Proof. vm_compute. reflexivity. Qed.
 Example t_eq_same : same TInt true w1 (VPequals 1 1 1) = true. Proof. vm_compute. reflexivity. Qed.
